@@ -53,6 +53,9 @@ theorem forLoop_mono {f g : Stmt → St → Option St} (hfg : MonoF f g) (x : St
   | [], s, r, h => by simpa [forLoop] using h
   | it :: rest, s, r, h => by
     rw [forLoop] at h ⊢
+    by_cases hst : stop s = true
+    · rw [if_pos hst] at h ⊢; exact h
+    rw [if_neg hst] at h ⊢
     cases hr : loopStmtsBroken f b { s with vars := (x, it) :: s.vars } with
     | none => rw [hr] at h; cases h
     | some r1 =>
